@@ -481,7 +481,7 @@ int main(int argc, char** argv)
     struct Plan { int depth; std::vector<std::string> alphabet; };
     std::vector<Plan> plans;
     const std::vector<std::string> chosen = sim.alphabet;
-    for (int d = std::min(2, depth); d <= std::min(depth, big ? 5 : 4); d++) plans.push_back({d, chosen});
+    for (int d = std::min(big ? 3 : 2, depth); d <= std::min(depth, big ? 5 : 4); d++) plans.push_back({d, chosen});
     // thorough: depth 6 over the events that create, conflict and restore wallet transactions
     if (big && depth >= 6 && chosen == full) plans.push_back({6, {"RM", "S", "M", "AB", "DS", "DM", "RO1", "RX"}});
     uint64_t done_states = 0, done_trans = 0, oc_done[16] = {0};
